@@ -175,13 +175,14 @@ def model_answer(chk, term):
 
 def replay(chk, path, pid):
     rp = json.loads(open(path).read())
-    case = rp['case']
-    terms, obs, f = evaluate(chk, [case], tag='replay')
-    chk.note_case(case)
+    cases = rp['cases'] if 'cases' in rp else [rp['case']]          # a corpus file holds several cases, a replay file one
+    terms, obs, f = evaluate(chk, cases, tag='replay')
     chk.note_case({'replay': path})
-    log('impl now :', json.dumps(obs[0])[:3000])
-    log('model    :', model_answer(chk, terms[0]) if 'crash' not in obs[0] else 'n/a')
+    for k, case in enumerate(cases):
+        chk.note_case(case)
+        log('impl now :', json.dumps(obs[k])[:3000])
+        log('model    :', model_answer(chk, terms[k]) if 'crash' not in obs[k] else 'n/a')
     log('agree    :', not f)
-    if f:
-        chk.report_violation(rp.get('signature', pid + ':replay'), {'case': case, 'impl': obs[0], 'coq_case': terms[0]},
+    for k in sorted(f)[:3]:
+        chk.report_violation(rp.get('signature', pid + ':replay'), {'case': cases[k], 'impl': obs[k], 'coq_case': terms[k]},
                              what='replayed case still fails')
